@@ -287,6 +287,11 @@ def modes_sweep(n: int, seed: int) -> Tuple[Dict[str, Any], List[Dict[str, Any]]
         ({"pattern": [{"nop": {"times": {"min": 0, "max": 3}}}]}, [("10", "push", ["%rbp"]), ("11", "nop", [""]), ("12", "nop", [""]), ("13", "ret", [""])]),
         ({"pattern": [{"call": {"times": {"min": 0, "max": 2}}}]}, [("10", "push", ["%rbp"]), ("11", "ret", [""])]),
         ({"pattern": ["ret"]}, [("ff8", "ret", [""]), ("ffd", "nop", [""]), ("1004", "ret", [""]), ("1009", "ret", [""])]),
+        # addresses of any number of digits (kernel / PE images: 16 digits; wider spellings are still addresses)
+        ({"pattern": ["push", "mov"]}, [("ffffffff81000000", "push", ["%rbp"]), ("ffffffff81000001", "mov", ["%rsp", "%rbp"]), ("ffffffff81000004", "ret", [""])]),
+        ({"pattern": ["push", "mov"]}, [("0ffffffff81000000", "push", ["%rbp"]), ("0ffffffff81000001", "mov", ["%rsp", "%rbp"]),
+                                         ("0ffffffff81000004", "push", ["%rbx"]), ("0ffffffff81000005", "mov", ["%rdi", "%rbx"])]),
+        ({"pattern": ["ret"]}, [("00000000ffffffff81000000", "ret", [""]), ("00000000ffffffff81000001", "nop", [""]), ("00000000ffffffff81000002", "ret", [""])]),
         # objdump -d of a static archive: one "file format" title per member, addresses restart
         ({"pattern": ["call"]}, "In archive libdemo.a:\n\na.o:     file format elf64-x86-64\n\n\nDisassembly of section .text:\n\n0000000000000000 <f>:\n"
                                 "   0:\t55                   \tpush   %rbp\n   4:\te8 00 00 00 00       \tcall   9 <f+0x9>\n   9:\tc3                   \tret\n"
@@ -565,6 +570,10 @@ def history_pool() -> List[Dict[str, Any]]:
          "macros_files": [{"macros": [{"name": "@store_to", "args": ["dst"], "pattern": [{"movq": ["@scratch", "dst"]}]}]}]},
         {"rule": {"config": None, "pattern": [{"mov": ["rax"]}]}, "listing": L2},
         {"rule": {"config": {}, "pattern": [{"mov": ["rax"]}]}, "listing": L2},
+        # boundary ranges: empty (max below min), one address, from zero
+        {"rule": {"config": {"valid_addr_range": {"min": "0x401fff", "max": "0x401000"}}, "pattern": [{"call": ["401020"]}]}, "listing": L1},
+        {"rule": {"config": {"valid_addr_range": {"min": "0x30", "max": "30"}}, "pattern": [{"jmp": ["valid_addr"]}]}, "listing": L2},
+        {"rule": {"config": {"valid_addr_range": {"min": "0x0", "max": "0x40"}}, "pattern": [{"jmp": ["30"]}]}, "listing": L2},
     ]
     modes = [["bool", "first_find", False], ["matched_addrs_list", "all_finds", True]]
     return [dict(p, kind="mop", modes=modes) for p in pool]
@@ -595,7 +604,7 @@ def history_sweep(n: int, seed: int) -> Tuple[Dict[str, Any], List[Dict[str, Any
                 break
     return {"history_sweep": {"histories": len(seqs), "pool": len(pool),
                               "bound": "histories of 2-3 operations (all repeats, sampled i,j,i) plus two histories over the whole pool, "
-                                       "18 operations with differing flags / ranges / captures / macros / sections / empty config"}}, viol
+                                       "21 operations with differing flags / ranges / captures / macros / sections / empty config"}}, viol
 
 
 # --------------------------------------------------------------------------- parser (C08, C09, C10, C16)
@@ -648,6 +657,30 @@ def parser_lines(rnd: random.Random, n: int) -> List[str]:
     return lines
 
 
+def limit_lines() -> List[Tuple[str, str]]:
+    """instruction lines at the limits of the objdump line grammar (deterministic; also part of every parser sweep)"""
+    out = []
+    for n in (10, 999, 1000, 1001, 1500, 5000):
+        out.append((f"annotation-{n}", f"  401100:\te8 fb 0e 00 00       \tcall   402000 <{'S' * n}>"))
+        out.append((f"comment-{n}", f"  401105:\t48 8d 05 e2 2f 00 00 \tlea    0x2fe2(%rip),%rax        # 404000 <{'T' * n}+0x10>"))
+    out.append(("data16+hint", "       1:\t66 2e 70 05          \tdata16 jo,pn a <f+0xa>"))
+    out.append(("data16+hint-pt", "       8:\t66 3e 75 05          \tdata16 jne,pt 11 <f+0x11>"))
+    out.append(("hint", "       5:\t2e 70 05             \tjo,pn  d <f+0xd>"))
+    out.append(("data16+prefix", "  40110c:\t66 2e 0f 1f 84 00 00 \tdata16 cs nopw 0x0(%rax,%rax,1)"))
+    out.append(("data16-twice", "  40110c:\t66 66 2e 0f 1f 84 00 \tdata16 data16 cs nopw 0x0(%rax,%rax,1)"))
+    for nb in (1, 7, 8, 9, 10, 15):
+        byt = " ".join(["0f"] * nb)
+        out.append((f"bytes-{nb}", f"  401120:\t{byt.ljust(20)} \tnopw   0x0(%rax,%rax,1)"))
+        out.append((f"bytes-{nb}-noops", f"  401130:\t{byt.ljust(20)} \tret"))
+    for a in ("0", "f", "ffffffff81000000", "0ffffffff81000000", "00000000ffffffff81000000"):
+        out.append((f"addr-{a}", f"{a}:\t55                   \tpush   %rbp"))
+    out.append(("blanks", "        401140:\t48 89 e5             \tmov                %rsp,%rbp"))
+    out.append(("long-index", "  401150:\t42 8d 4c f8 10       \tlea    0x10(%eax,%r15d,8),%ecx"))
+    out.append(("long-index-w", "  401155:\t66 42 8b 04 50       \tmov    (%rax,%r10w,2),%ax"))
+    out.append(("three-mems", "  401160:\tc4 e2 71 92 04 05 00 \tvgatherdps %xmm1,0x0(,%xmm0,1),%xmm0"))
+    return out
+
+
 def decorate(rnd: random.Random, lines: List[str]) -> List[str]:
     """presentation edits of C16: labels, blank lines, headers, indentation, byte column, annotations stay semantically inert"""
     out = ["", "prog:     file format elf64-x86-64", "", "", "Disassembly of section .text:", ""]
@@ -671,12 +704,26 @@ def decorate(rnd: random.Random, lines: List[str]) -> List[str]:
 
 def parser_sweep(n: int, seed: int) -> Tuple[Dict[str, Any], List[Dict[str, Any]]]:
     rnd = random.Random(seed * 17 + 11)
-    lines = parser_lines(rnd, n)
+    lines = parser_lines(rnd, n) + [ln for _t, ln in limit_lines()]
     dec = decorate(random.Random(seed + 1), lines)
-    jobs = [{"kind": "parse", "lines": lines, "stream": True}, {"kind": "parse", "lines": dec, "stream": True}]
+    # third job: the decorated listing under a rule whose config sets every entry that must not influence the stream
+    cfg = {"style": "intel", "mnemonics-full-match": True, "operands-full-match": True, "sections": [".text"]}
+    jobs = [{"kind": "parse", "lines": lines, "stream": True}, {"kind": "parse", "lines": dec, "stream": True},
+            {"kind": "parse", "lines": dec, "stream": True, "config": cfg}]
     res = replay.run_real(jobs, timeout=1800)
     viol = []
-    a, b = res
+    a, b, b_cfg = res
+    sc = b_cfg.get("stream", {}).get("result")
+    if sc != a.get("stream", {}).get("result"):
+        k = 0
+        sa_ = a.get("stream", {}).get("result") or ""
+        ra, rc = sa_.split("|"), (sc or "").split("|")
+        while k < min(len(ra), len(rc)) and ra[k] == rc[k]:
+            k += 1
+        viol.append({"input": {"config": cfg, "plain": lines[max(0, k - 1):k + 2], "decorated": dec[:60]},
+                     "real": {"default_config_record": ra[k] if k < len(ra) else None, "with_config_record": rc[k] if k < len(rc) else None},
+                     "disagreement": "the instruction stream of a listing changes with the rule's style / full-match / sections entries "
+                                     "(the stream is a function of the listing; sections and style only select what objdump is asked for)"})
     for ln, r in zip(lines, a["lines"]):
         exp = OM.decode_line(ln)
         got = tuple(r["inst"]) if "inst" in r else None
@@ -713,12 +760,14 @@ def parser_sweep(n: int, seed: int) -> Tuple[Dict[str, Any], List[Dict[str, Any]
 def validaddr_sweep(n: int, seed: int) -> Tuple[Dict[str, Any], List[Dict[str, Any]]]:
     rnd = random.Random(seed * 101 + 7)
     jobs, exps, inputs = [], [], []
-    for _ in range(max(4, n // 10)):
+    for it in range(max(6, n // 10)):
         lo = rnd.choice([0x10, 0x401000, 0x1000, 0xfff0])
         hi = lo + rnd.choice([0, 1, 0x10, 0xfff, 0x100000])
+        if it < 2:                      # the range that starts at address 0 (unlinked objects), both spellings of zero
+            lo, hi = 0, (0x1000, 0)[it]
         spell = lambda v: rnd.choice([format(v, "x"), "0x" + format(v, "x"), "0x000" + format(v, "x")])
         cfg = {"valid_addr_range": {"min": spell(lo), "max": spell(hi)}}
-        targets = [lo - 1, lo, (lo + hi) // 2, hi, hi + 1, 3, 0x7fffffffffff]
+        targets = [t for t in [lo - 1, lo, (lo + hi) // 2, hi, hi + 1, 3, 0, 0x7fffffffffff] if t >= 0]
         recs, expect = [], []
         a = 0x500000
         for t in targets:
@@ -729,10 +778,13 @@ def validaddr_sweep(n: int, seed: int) -> Tuple[Dict[str, Any], List[Dict[str, A
         recs.append((format(a, "x"), "call", ["*%rax"])); expect.append(False); a += 2
         recs.append((format(a, "x"), "jmp", ["*0x8(%rip)"])); expect.append(False); a += 6
         recs.append((format(a, "x"), "mov", [format(lo, "x"), "%rax"])); expect.append(False); a += 3
+        # one-operand non-branches whose immediate happens to lie in the range: an immediate is not a branch target
+        recs.append((format(a, "x"), "push", ["$0x" + format((lo + hi) // 2, "x")])); expect.append(False); a += 5
+        recs.append((format(a, "x"), "int", ["$0x" + format(lo, "x")])); expect.append(False); a += 2
         lines = ["", "x:     file format elf64-x86-64", "", "Disassembly of section .text:", "", "0000000000500000 <f>:"]
         for (ad, mn, ops) in recs:
             sym = " <f+0x10>" if mn in ("call", "jmp") and not ops[0].startswith("*") else ""
-            optxt = ops[0] if len(ops) == 1 else ",".join(["$0x" + ops[0], ops[1]])
+            optxt = ops[0] if len(ops) == 1 else ",".join(["$0x" + ops[0], ops[1]])      # "$0x.." operands are written as they are
             lines.append(f"  {ad}:\te8 00 00 00 00       \t{mn}   {optxt}{sym}")
             if mn == "mov":
                 # a long encoding continues on a bytes-only line: it is not an instruction and adds nothing to the stream
@@ -779,15 +831,20 @@ def cli_sweep(n: int, seed: int) -> Tuple[Dict[str, Any], List[Dict[str, Any]]]:
         ({"pattern": ["@save", {"mov": ["%rsp", "@reg"]}]}, [{"macros": [{"name": "@save", "pattern": [{"push": ["@reg"]}]}]}, {"macros": [{"name": "@reg", "pattern": "%rbp"}]}]),
         ({"pattern": ["@b_item", "@a_item"]}, [{"macros": [{"name": "@b_item", "pattern": "push"}]}, {"macros": [{"name": "@a_item", "pattern": "mov"}]}]),
     ]
+    # an object file's listing restarts at address 0 in every section: consecutive matches may carry the same address (and the same text)
+    L_REPEAT = ("\nx.o:     file format elf64-x86-64\n\n\nDisassembly of section .text:\n\n0000000000000000 <f>:\n"
+                "   0:\t55                   \tpush   %rbp\n   1:\tc3                   \tret\n\nDisassembly of section .text.startup:\n\n"
+                "0000000000000000 <g>:\n   0:\t55                   \tpush   %rbp\n   1:\t53                   \tpush   %rbx\n   2:\tc3                   \tret\n")
+    cases = [c + (L,) for c in cases] + [({"pattern": ["push"]}, [], L_REPEAT), ({"pattern": ["ret"]}, [], L_REPEAT)]
     viol = []
     runs = 0
     py = "/venv/bin/python"
     env = dict(os.environ)
     env["PYTHONPATH"] = os.path.join(replay.repo(), "src")
     with tempfile.TemporaryDirectory() as t:
-        lp = os.path.join(t, "in.s")
-        open(lp, "w").write(L)
-        for ci, (rule, docs) in enumerate(cases):
+        for ci, (rule, docs, L_case) in enumerate(cases):
+            lp = os.path.join(t, f"in{ci}.s")
+            open(lp, "w").write(L_case)
             rp = os.path.join(t, f"r{ci}.yaml")
             yaml.safe_dump(rule, open(rp, "w"), sort_keys=False)
             # file names chosen so that the given order is NOT the sorted order
@@ -805,7 +862,7 @@ def cli_sweep(n: int, seed: int) -> Tuple[Dict[str, Any], List[Dict[str, Any]]]:
                     out = p.stderr + p.stdout
                     addrs = [ln.split("Matched address: ", 1)[1] for ln in out.split("\n") if "Matched address: " in ln]
                     found = "RESULT: Pattern found" in out
-                    api = replay.run_real({"kind": "mop", "rule": rule, "listing": L, "macros_files": docs,
+                    api = replay.run_real({"kind": "mop", "rule": rule, "listing": L_case, "macros_files": docs,
                                            "modes": [["bool", "all_finds" if allm else "first_find", only],
                                                      ["matched_addrs_list", "all_finds" if allm else "first_find", only]]})
                     rb, rl = api["results"][0], api["results"][1]
@@ -815,7 +872,7 @@ def cli_sweep(n: int, seed: int) -> Tuple[Dict[str, Any], List[Dict[str, Any]]]:
                                          "disagreement": f"the API raises ({rb['error']}) but the command exits with status 0"})
                         continue
                     if p.returncode != 0 or found != rb["result"] or addrs != rl["result"]:
-                        viol.append({"input": {"argv": argv[3:], "rule": rule, "macros_files": docs, "listing": L},
+                        viol.append({"input": {"argv": argv[3:], "rule": rule, "macros_files": docs, "listing": L_case},
                                      "real": {"exit": p.returncode, "cli_found": found, "cli_addresses": addrs, "api_bool": rb["result"], "api_list": rl["result"]},
                                      "disagreement": "the jasm command does not report the verdict / matched addresses the API computes"})
         # required arguments
@@ -844,7 +901,7 @@ def cli_sweep(n: int, seed: int) -> Tuple[Dict[str, Any], List[Dict[str, Any]]]:
             if p.returncode == 0:
                 viol.append({"input": {"argv": argv[3:], "PATH": e.get("PATH")}, "real": {"exit": 0, "output": (p.stderr + p.stdout)[-300:]},
                              "disagreement": f"the command {what} exits with status 0 although the operation failed"})
-    return {"cli_sweep": {"runs": runs, "bound": "4 rules x 4 option combinations through `python -m jasm.main` in a scratch directory, "
+    return {"cli_sweep": {"runs": runs, "bound": "6 rules (two on a listing whose sections restart at address 0) x 6 option combinations through `python -m jasm.main` in a scratch directory, "
                           "macro files given in non-sorted order, plus 4 malformed command lines and 5 failing operations"}}, viol
 
 
@@ -863,27 +920,37 @@ def binary_sweep(n: int, seed: int) -> Tuple[Dict[str, Any], List[Dict[str, Any]
         seclists = [None, [".text.alpha"], [".text.beta"], [".text.gamma"], [".text.beta", ".text.gamma"], [".text"], [".text.alpha"], None,
                     [".text.gamma", ".text.alpha"], ["hotcode"], [".text", "hotcode"]]
         pats = [["xor"], ["push"], ["sub"], ["ret"]]
+        # (sections, pattern, other config entries, extra macro files): sections together with the other features of a rule
+        MF = [{"macros": [{"name": "@r", "pattern": "ret"}, {"name": "@p", "pattern": "push"}]}]
+        descr = [(secs, pats[k % len(pats)], {}, None) for k, secs in enumerate(seclists)]
+        descr += [([".text.beta"], ["push"], {"valid_addr_range": {"min": "0x0", "max": "0x2"}}, None),
+                  ([".text.gamma"], ["@p"], {}, MF),
+                  (None, ["ret"], {"valid_addr_range": {"min": "0x1", "max": "0x1"}, "mnemonics-full-match": True}, None),
+                  ([".text.gamma", ".text"], ["@r"], {"operands-full-match": True}, MF),
+                  (["hotcode"], ["xor"], {"style": "att"}, MF)]
         ops_bin, ops_txt = [], []
-        for k, secs in enumerate(seclists):
-            pat = pats[k % len(pats)]
+        for k, (secs, pat, other, mfiles) in enumerate(descr):
             rule: Dict[str, Any] = {"pattern": pat}
-            if secs is not None:
-                rule["config"] = {"sections": secs}
+            if secs is not None or other:
+                rule["config"] = dict(other)
+                if secs is not None:
+                    rule["config"]["sections"] = secs
             argv = ["objdump", "-d", "-M", "att"] + [x for s_ in (secs or []) for x in ("-j", s_)] + [op]
             txt = subprocess.run(argv, capture_output=True, text=True).stdout
             modes = [["bool", "first_find", False], ["matched_addrs_list", "all_finds", True], ["all_instructions_string", "first_find", False]]
-            ops_bin.append({"kind": "mop", "rule": rule, "binary_path": op, "modes": modes})
-            ops_txt.append({"kind": "mop", "rule": rule, "listing": txt, "modes": modes})
+            extra = {"macros_files": mfiles} if mfiles else {}
+            ops_bin.append(dict({"kind": "mop", "rule": rule, "binary_path": op, "modes": modes}, **extra))
+            ops_txt.append(dict({"kind": "mop", "rule": rule, "listing": txt, "modes": modes}, **extra))
         rb = replay.run_real({"kind": "history", "ops": ops_bin})
         rt_ = replay.run_real({"kind": "history", "ops": ops_txt})
         for k, (a, b) in enumerate(zip(rb["ops"], rt_["ops"])):
             if a != b:
-                viol.append({"input": {"assembly_source": src, "operations": [{"sections": s_, "pattern": pats[i % len(pats)]} for i, s_ in enumerate(seclists[:k + 1])]},
+                viol.append({"input": {"assembly_source": src, "operations": [{"rule": o_["rule"], "macros_files": o_.get("macros_files")} for o_ in ops_bin[:k + 1]]},
                              "real": {"binary_route": a, "objdump_text_route": b},
-                             "disagreement": f"operation #{k} (sections {seclists[k]}): matching the binary differs from matching the text of objdump -d -M att"})
+                             "disagreement": f"operation #{k} (sections {descr[k][0]}): matching the binary differs from matching the text of objdump -d -M att"})
                 break
-    return {"binary_sweep": {"operations": len(seclists), "bound": "one object with 5 code sections (one named without a leading dot), 11 operations with differing section lists "
-                             "in one process, binary route vs the harness's own objdump text"}}, viol
+    return {"binary_sweep": {"operations": len(descr), "bound": "one object with 5 code sections (one named without a leading dot), 16 operations with differing section lists "
+                             "(5 of them with a valid_addr_range / full-match flags / extra macro files as well) in one process, binary route vs the harness's own objdump text"}}, viol
 
 
 # --------------------------------------------------------------------------- assumed-contract conformance (thorough tier)
@@ -990,12 +1057,12 @@ def run(prop: str, tier: str, seed: int, force: bool = False) -> Tuple[Dict[str,
             plan.append("history")
         if prop in ("C08", "C09", "C10", "C16", "C06") or (force and prop == "C07"):
             plan.append("parser")
-        if prop == "C18" or (force and prop in ("C07", "C08", "C10", "C16")):
+        if prop == "C18" or (force and prop in ("C07", "C08", "C09", "C10", "C16")):
             # which instructions enter the stream also depends on the observers installed by valid_addr_range
             plan.append("validaddr")
         if prop == "C20":
             plan.append("cli")
-        if prop in ("C15", "C14"):
+        if prop in ("C15", "C14") or (force and prop == "C18"):
             plan.append("binary")
         if tier == "thorough":
             if prop in ("C08", "C09", "C10", "C16"):
@@ -1059,6 +1126,12 @@ def rerun(prop: str, doc: Dict[str, Any], path: str) -> int:
         fresh = replay.run_real(ops[-1])
         bad = r["ops"][-1] != fresh
         print(json.dumps({"in_history": r["ops"][-1], "fresh": fresh}, indent=1)[:2000])
+    elif "config" in inp and "plain" in inp:
+        a, b = replay.run_real([{"kind": "parse", "lines": inp["plain"], "stream": True},
+                                {"kind": "parse", "lines": inp["plain"], "stream": True, "config": inp["config"]}])
+        sa, sb = a.get("stream", {}).get("result"), b.get("stream", {}).get("result")
+        print(json.dumps({"default_config": sa, "with_config": sb}, indent=1)[:2000])
+        bad = sa != sb
     elif "line" in inp:
         r = replay.run_real({"kind": "parse", "lines": [inp["line"]]})
         exp = OM.decode_line(inp["line"])
